@@ -100,23 +100,60 @@ package align
 // of an original row, the kept rows come in their original order, and the first row is always kept.
 // NOT COVERED: equality of the residues of a kept row with its original (proof not found: the existential witness and the byte-wise
 // string round trip string(seq.sequence) -> []uint8 together exhaust the solvers)
+// C13 part (added in place by the C13 author; vocabulary c13_* in zz_contracts_c13_verif.go): a row is kept exactly when it is
+// the first occurrence of its sequence (N/X counted as gaps under nAsGap), kept rows carry the residues of the input row of the
+// same name, one group per kept row led by the name of that row.
+// C13 NOT COVERED (clauses written, proof not found within the solver limits - the nested-slice append path
+// identical[i] = append(identical[i], name) is decided in 2-20 s by hand after a case split realloc / in place, but not by the
+// portfolio with all invariants present; kept here as comments, none is contradicted by a counter-model):
+//   ensures (forall q :: 0 <= q && q < old(nrows(sb)) ==> old(c13_first(sb, nAsGap, q))) ==> nrows(sb) == old(nrows(sb)) && (forall r :: 0 <= r && r < nrows(sb) ==> rowname(sb, r) == old(rowname(sb, r)))
+//   (forall q :: 0 <= q && q < $i ==> has(sb.seqmap, old(rowname(sb, q)))) ==> nrows(sb) == $i && (forall r :: 0 <= r && r < $i ==> rowname(sb, r) == old(rowname(sb, r)))
+//   forall g, m, q :: 0 <= g && g < len(identical) && 0 <= m && m < len(identical[g]) && 0 <= q && q < $i && identical[g][m] == old(rowname(sb, q)) ==> streq(old(c13_key(sb, nAsGap, q)), c13_key(sb, nAsGap, g))
+//   forall q :: 0 <= q && q < $i ==> exists m :: 0 <= m && m < len(identical[seqs[old(c13_key(sb, nAsGap, q))]]) && identical[seqs[old(c13_key(sb, nAsGap, q))]][m] == old(rowname(sb, q))
+//   forall g1, m1, g2, m2 :: 0 <= g1 && g1 < len(identical) && 0 <= m1 && m1 < len(identical[g1]) && 0 <= g2 && g2 < len(identical) && 0 <= m2 && m2 < len(identical[g2]) && (g1 != g2 || m1 != m2) ==> identical[g1][m1] != identical[g2][m2]
 //@ func (*seqbag).Deduplicate
-//@   props C01
+//@   props C01 C13
 //@   requires wf(sb)
 //@   ensures err == nil && wf(sb) && sb.alphabet == old(sb.alphabet) && nrows(sb) <= old(nrows(sb)) && (old(nrows(sb)) > 0 ==> nrows(sb) > 0)
 //@   ensures forall r :: 0 <= r && r < nrows(sb) ==> exists q :: r <= q && q < old(nrows(sb)) && old(rowname(sb, q)) == rowname(sb, r) && old(rowlen(sb, q)) == rowlen(sb, r)
-//@   ensures forall r1, r2, q1, q2 :: 0 <= r1 && r1 < r2 && r2 < nrows(sb) && 0 <= q1 && q1 < old(nrows(sb)) && 0 <= q2 && q2 < old(nrows(sb)) && rowname(sb, r1) == old(rowname(sb, q1)) && rowname(sb, r2) == old(rowname(sb, q2)) ==> q1 < q2
+// (restricted to C01 runs: with the C13 invariants present the solvers no longer find this 4-variable proof in time; it does not depend on them)
+//@   ensures [C01] forall r1, r2, q1, q2 :: 0 <= r1 && r1 < r2 && r2 < nrows(sb) && 0 <= q1 && q1 < old(nrows(sb)) && 0 <= q2 && q2 < old(nrows(sb)) && rowname(sb, r1) == old(rowname(sb, q1)) && rowname(sb, r2) == old(rowname(sb, q2)) ==> q1 < q2
 // called on an alignment (the method is promoted to *align): rectangular with the cached length as before
 //@   ensures isalign(sb) && old(wfa(sb)) ==> wfa(sb)
+// (C13) a row is kept (its name is a name of the result) exactly when it is the first occurrence of its sequence:
+// no earlier row equals a kept row; a dropped row equals an earlier kept row
+//@   hint [C13] forall q :: 0 <= q && q < old(nrows(sb)) ==> old(c13_iskey(sb, nAsGap, c13_key(sb, nAsGap, q), q))
+//@   ensures [C13] forall p, q :: 0 <= p && p < q && q < old(nrows(sb)) && has(sb.seqmap, old(rowname(sb, q))) ==> !old(c13_eq(sb, nAsGap, p, q))
+//@   ensures [C13] forall q :: 0 <= q && q < old(nrows(sb)) && !has(sb.seqmap, old(rowname(sb, q))) ==> exists p :: 0 <= p && p < q && has(sb.seqmap, old(rowname(sb, p))) && old(c13_eq(sb, nAsGap, p, q))
+// (C13) a kept row has the residues of the input row of the same name
+//@   ensures [C13] forall r, q :: 0 <= r && r < nrows(sb) && 0 <= q && q < old(nrows(sb)) && rowname(sb, r) == old(rowname(sb, q)) ==> rowlen(sb, r) == old(rowlen(sb, q)) && (forall j :: 0 <= j && j < rowlen(sb, r) ==> cell(sb, r, j) == old(cell(sb, q, j)))
+// (C13) one group per kept row, in the order of the kept rows, led by the name of that row
+//@   ensures [C13] len(identical) == nrows(sb) && (forall g :: 0 <= g && g < len(identical) ==> len(identical[g]) >= 1 && identical[g][0] == rowname(sb, g))
+// (C13) every group member is an input name
+//@   ensures [C13] forall g, m :: 0 <= g && g < len(identical) && 0 <= m && m < len(identical[g]) ==> has(old(sb.seqmap), identical[g][m])
 //@   modifies sb.seqs, sb.seqmap
 //@   loop 1
+//@     invariant [C13] forall r :: 0 <= r && r < nrows(sb) ==> allocated(row(sb, r).sequence)
+//@     invariant [C13] forall r, q :: 0 <= r && r < nrows(sb) && 0 <= q && q < old(nrows(sb)) && rowname(sb, r) == old(rowname(sb, q)) ==> rowlen(sb, r) == old(rowlen(sb, q)) && (forall j :: 0 <= j && j < rowlen(sb, r) ==> cell(sb, r, j) == old(cell(sb, q, j)))
+//@     invariant [C13] forall p, q :: 0 <= p && p < q && q < $i && has(sb.seqmap, old(rowname(sb, q))) ==> !streq(old(c13_key(sb, nAsGap, p)), old(c13_key(sb, nAsGap, q)))
+//@     invariant [C13] forall q :: 0 <= q && q < $i && !has(sb.seqmap, old(rowname(sb, q))) ==> exists p :: 0 <= p && p < q && has(sb.seqmap, old(rowname(sb, p))) && old(c13_key(sb, nAsGap, p)) == old(c13_key(sb, nAsGap, q))
+//@     invariant [C13] forall q :: $i <= q && q < old(nrows(sb)) ==> !has(sb.seqmap, old(rowname(sb, q)))
+//@     invariant [C13] forall k string :: has(seqs, k) ==> exists q :: 0 <= q && q < $i && has(sb.seqmap, old(rowname(sb, q))) && k == old(c13_key(sb, nAsGap, q))
+//@     invariant [C13] forall q :: 0 <= q && q < $i ==> has(seqs, old(c13_key(sb, nAsGap, q)))
+//@     invariant [C13] len(identical) == nrows(sb)
+//@     invariant [C13] forall j :: 0 <= j && j < len(identical) ==> allocated(identical[j])
+//@     invariant [C13] forall j1, j2 :: 0 <= j1 && j1 < j2 && j2 < len(identical) ==> base(identical[j1]) != base(identical[j2])
+//@     invariant [C13] forall g :: 0 <= g && g < len(identical) ==> len(identical[g]) >= 1 && identical[g][0] == rowname(sb, g)
+//@     invariant [C13] forall k string :: has(seqs, k) ==> streq(k, c13_key(sb, nAsGap, seqs[k]))
+//@     invariant [C13] forall g, m :: 0 <= g && g < len(identical) && 0 <= m && m < len(identical[g]) ==> has(old(sb.seqmap), identical[g][m])
+//@     invariant [C13] forall g, m, q :: 0 <= g && g < len(identical) && 0 <= m && m < len(identical[g]) && $i <= q && q < old(nrows(sb)) ==> identical[g][m] != old(rowname(sb, q))
 //@     invariant err == nil && wf(sb) && sameslice(oldseqs, old(sb.seqs)) && fresh(sb.seqmap) && fresh(sb.seqs) && sb.alphabet == old(sb.alphabet)
 //@     invariant 0 <= nrows(sb) && nrows(sb) <= $i && ($i > 0 ==> nrows(sb) > 0)
 //@     invariant seqs != nil && fresh(seqs) && fresh(identical) && (nrows(sb) == 0 ==> forall k string :: !has(seqs, k))
 //@     invariant forall k string :: has(seqs, k) ==> 0 <= seqs[k] && seqs[k] < len(identical)
 //@     invariant forall j :: 0 <= j && j < len(identical) ==> fresh(identical[j])
 //@     invariant forall r :: 0 <= r && r < nrows(sb) ==> exists q :: r <= q && q < $i && old(rowname(sb, q)) == rowname(sb, r) && old(rowlen(sb, q)) == rowlen(sb, r)
-//@     invariant forall r1, r2, q1, q2 :: 0 <= r1 && r1 < r2 && r2 < nrows(sb) && 0 <= q1 && q1 < old(nrows(sb)) && 0 <= q2 && q2 < old(nrows(sb)) && rowname(sb, r1) == old(rowname(sb, q1)) && rowname(sb, r2) == old(rowname(sb, q2)) ==> q1 < q2
+//@     invariant [C01] forall r1, r2, q1, q2 :: 0 <= r1 && r1 < r2 && r2 < nrows(sb) && 0 <= q1 && q1 < old(nrows(sb)) && 0 <= q2 && q2 < old(nrows(sb)) && rowname(sb, r1) == old(rowname(sb, q1)) && rowname(sb, r2) == old(rowname(sb, q2)) ==> q1 < q2
 //@     decreases len(oldseqs) - $i
 
 // ---- iterators and the function literals handed to them ----
